@@ -38,6 +38,23 @@ def call_rvint(c, arena):
     return (None if pos is None else pos.copy(), None if vel is None else vel.copy())
 
 
+def all_rvint():
+    for n in (0, 1, 2, 7):
+        for pos in (False, True):
+            for vel in (False, True):
+                for dtype in ('f4', 'f8'):
+                    for extra in (0, 3):
+                        yield {'n': n, 'pos': pos, 'vel': vel, 'dtype': dtype, 'seed': 11 * n + 1, 'extra_rows': extra}
+
+
+def all_pids():
+    import itertools
+    for n in (0, 1, 2, 9):
+        for k in range(len(PIDOUT) + 1):
+            for outs in itertools.combinations(PIDOUT, k):
+                yield {'n': n, 'outs': list(outs), 'seed': 7 * n + 3}
+
+
 # ----------------------------------------------------------------- pids ----
 PIDOUT = ['pid', 'lagr_pos', 'tagged', 'density', 'lagr_idx']
 
@@ -170,6 +187,29 @@ def gen_grid(rng, kind):
             'offset': rng.choice([0.0, 0.5 * box / shape[0], box / shape[0]]) if kind == 'tsc' else rng.choice([0.0, 0.5 * box / shape[0]])}
 
 
+def all_grid():
+    """Every (kernel, grid shape, offset, dtype) of the families above with one particle for each combination of
+    boundary coordinates per axis: complete over the boundary classes instead of sampled."""
+    import itertools
+    box = 1.0
+    for kind in ('tsc', 'tsc_parallel1', 'cic'):
+        if kind == 'cic':
+            shapes = [[a, b, c] for a in (2, 3, 5) for b in (2, 4) for c in (1, 3)] + [[2] * 3, [4] * 3, [7] * 3]
+        else:
+            shapes = [[a, b, c] for a in (1, 2, 3, 5) for b in (1, 2, 4) for c in (1, 3)] + [[2] * 3, [4] * 3, [7] * 3]
+        for shape in shapes:
+            for dtype in ('f4', 'f8'):
+                ft = np.float32 if dtype == 'f4' else np.float64
+                top = float(np.nextafter(ft(box), ft(0)))
+                half_lo = float(np.nextafter(ft(0.5 * box), ft(0)))
+                vals = [0.0, top, box, 0.5 * box, half_lo, float(ft(1.0) / ft(3.0)), 1e-30]
+                pos = [list(p) for p in itertools.product(vals, repeat=3)]
+                offs = [0.0, 0.5 * box / shape[0]] + ([box / shape[0]] if kind != 'cic' else [])
+                for off in offs:
+                    for weights in (False, True):
+                        yield {'kind': kind, 'shape': shape, 'pos': pos, 'dtype': dtype, 'weights': weights, 'offset': off}
+
+
 def call_grid(c, arena):
     ft = np.float32 if c['dtype'] == 'f4' else np.float64
     pos = _put(arena, np.array(c['pos'], dtype=ft).reshape(-1, 3))
@@ -260,3 +300,5 @@ KERNELS = {
     'power_spectrum.linear_interp': (gen_interp, call_interp),
     'power_spectrum.P_n': (gen_legendre, call_legendre),
 }
+
+GRID_KERNEL = {'tsc': 'tsc._tsc_scatter', 'tsc_parallel1': 'tsc.tsc_parallel[nthread=1]', 'cic': 'cic.cic_serial'}
